@@ -239,6 +239,16 @@ func (p *GleecePipeline) getControllers() []metadata.ControllerMeta {
 func (p *GleecePipeline) reduceControllers(controllers []metadata.ControllerMeta) ([]definitions.ControllerMetadata, error) {
 	var reducedControllers []definitions.ControllerMetadata
 
+	// Reduction hands out import serials on first use. Controllers come out of the graph in map order,
+	// so they're put in a canonical order first; otherwise the generated import aliases differ between runs
+	controllers = slices.Clone(controllers)
+	slices.SortStableFunc(controllers, func(a, b metadata.ControllerMeta) int {
+		if byPkg := strings.Compare(a.Struct.PkgPath, b.Struct.PkgPath); byPkg != 0 {
+			return byPkg
+		}
+		return strings.Compare(a.Struct.Name, b.Struct.Name)
+	})
+
 	for _, controller := range controllers {
 		reduced, err := controller.Reduce(p.getReductionContext())
 		if err != nil {
